@@ -1014,8 +1014,37 @@ func flattenOne(src []byte, keep map[string]bool, serial int) ([]byte, string, b
 		}
 		if as, ok := stmt.(*ast.AssignStmt); ok && okPos {
 			for _, l := range as.Lhs {
-				if _, isId := l.(*ast.Ident); !isId {
-					okPos = false // operands of index/indirection on the left are evaluated first
+				// operands of index expressions and explicit indirections on the left are evaluated before the call;
+				// a plain variable or a field selection over plain variables (`s.opts = f(args)`) reads only variables,
+				// which the inlined body - the callee's code - cannot assign unless it was handed their address
+				root := l
+				simple := true
+				for simple {
+					switch x := root.(type) {
+					case *ast.Ident:
+					case *ast.SelectorExpr:
+						root = x.X
+						continue
+					default:
+						simple = false
+					}
+					break
+				}
+				if !simple {
+					okPos = false
+					continue
+				}
+				if id, isId := root.(*ast.Ident); isId {
+					if _, plain := l.(*ast.Ident); !plain {
+						ast.Inspect(c.call, func(n ast.Node) bool {
+							if u, ok := n.(*ast.UnaryExpr); ok && u.Op == token.AND {
+								if x, ok := u.X.(*ast.Ident); ok && x.Name == id.Name {
+									okPos = false
+								}
+							}
+							return true
+						})
+					}
 				}
 			}
 		}
